@@ -242,7 +242,7 @@ def task_coords_attrs_symbolic(ctx, timeout):
       ctx.error('coordinate_system_attrs_roundtrip_symbolic', f'CrossHair inconclusive: {txt[:200]}')
 
 
-def task_dataset(ctx, cfg, layers, kind):
+def task_dataset(ctx, cfg, layers, kind, axes='time'):
   """data_to_xarray -> xarray_to_*: dimension names are the intended ones and values read back bit-identical
   (the code never inspects values: identity of the stored arrays is checked with distinct sentinels)."""
   from dinosaur import xarray_utils as xu, coordinate_systems as cs, sigma_coordinates as sc, layer_coordinates as lc
@@ -251,25 +251,28 @@ def task_dataset(ctx, cfg, layers, kind):
   vertical = sc.SigmaCoordinates.equidistant(layers) if kind != 'sw' else lc.LayerCoordinates(layers)
   coords = cs.CoordinateSystem(grid, vertical)
   K = layers
-  times = np.arange(3) * 0.5
-  conf = dict(grid=grids.cfg_name(cfg), layers=K, kind=kind, modal_shape=list(grid.modal_shape), nodal_shape=list(grid.nodal_shape))
+  # leading axes of the stored state: documented order [sample, time, ...]; either, both or none may be present
+  times = np.arange(3) * 0.5 if 'time' in axes else None
+  sample_ids = np.arange(2) if 'sample' in axes else None
+  conf = dict(grid=grids.cfg_name(cfg), layers=K, kind=kind, modal_shape=list(grid.modal_shape), nodal_shape=list(grid.nodal_shape), **({'axes': axes} if axes != 'time' else {}))
   cnt = itertools.count(1)
 
   def arr(shape):
     a = np.empty(shape); a.reshape(-1)[:] = np.arange(a.size) + 1000.0 * next(cnt)
     return a
-  T = (len(times),)
+  T = (() if sample_ids is None else (len(sample_ids),)) + (() if times is None else (len(times),))
+  lead = (() if sample_ids is None else ('sample',)) + (() if times is None else ('time',))
   intended = {}
   if kind == 'modal':
     data = {'vorticity': arr(T + (K,) + grid.modal_shape), 'log_surface_pressure': arr(T + (1,) + grid.modal_shape), 'sim_time': arr(T),
             'tracers': {'q': arr(T + (K,) + grid.modal_shape)}}
-    intended = {'vorticity': ('time', 'level', 'longitudinal_mode', 'total_wavenumber'), 'log_surface_pressure': ('time', 'surface', 'longitudinal_mode', 'total_wavenumber'),
-                'sim_time': ('time',), 'q': ('time', 'level', 'longitudinal_mode', 'total_wavenumber')}
+    intended = {'vorticity': lead + ('level', 'longitudinal_mode', 'total_wavenumber'), 'log_surface_pressure': lead + ('surface', 'longitudinal_mode', 'total_wavenumber'),
+                'sim_time': lead, 'q': lead + ('level', 'longitudinal_mode', 'total_wavenumber')}
   else:
     data = {'u': arr(T + (K,) + grid.nodal_shape), 'sp': arr(T + (1,) + grid.nodal_shape), 'sim_time': arr(T)}
-    intended = {'u': ('time', 'level', 'lon', 'lat'), 'sp': ('time', 'surface', 'lon', 'lat') if K != 1 else ('time', 'level', 'lon', 'lat'), 'sim_time': ('time',)}
+    intended = {'u': lead + ('level', 'lon', 'lat'), 'sp': lead + (('surface', 'lon', 'lat') if K != 1 else ('level', 'lon', 'lat')), 'sim_time': lead}
   try:
-    ds = xu.data_to_xarray(data, coords=coords, times=times)
+    ds = xu.data_to_xarray(data, coords=coords, times=times, sample_ids=sample_ids)
   except Exception as e:  # noqa: BLE001
     shapes = {k: list(np.shape(v)) for k, v in data.items() if not isinstance(v, dict)}
     ctx.violation('dataset.dimension_names', dict(config=conf, kind='cannot-write', single_layer=(K == 1), modal_equals_nodal=(grid.modal_shape == grid.nodal_shape)),
@@ -282,7 +285,7 @@ def task_dataset(ctx, cfg, layers, kind):
     ctx.violation('dataset.dimension_names', dict(config=conf, kind='wrong-dims', single_layer=(K == 1), modal_equals_nodal=(grid.modal_shape == grid.nodal_shape)),
                   dict(wrong={k: [list(a), list(b)] for k, (a, b) in wrong.items()}), f'data_to_xarray labels {list(wrong)} with {list(wrong.values())[0][0]} instead of {list(wrong.values())[0][1]}')
   back = {k: ds[k].values for k in ds}
-  if kind == 'nodal' and 'surface' not in ds.dims:
+  if kind == 'nodal' and 'surface' not in ds.dims and axes == 'time':
     back = xu.xarray_to_data_dict(ds, values='values')          # the documented reader for nodal (time, level, lon, lat) datasets
   flat_in = {**{k: v for k, v in data.items() if not isinstance(v, dict)}, **data.get('tracers', {})}
   same = all(np.array_equal(np.asarray(back[k]), v) and np.asarray(back[k]).dtype == v.dtype for k, v in flat_in.items())
@@ -307,6 +310,11 @@ def make_tasks(tier, seed):
                             (dict(M=3, L=4, nlon=8, nlat=5), 1, 'nodal'),           # single layer
                             (dict(M=3, L=4, nlon=8, nlat=5, impl='fast'), 2, 'modal')):
     tasks.append(dict(name=f'dataset-{grids.cfg_name(cfg)}-{layers}-{kind}', fn='task_dataset', kw=dict(cfg=cfg, layers=layers, kind=kind)))
+  # every combination of the optional leading axes (none / sample only / sample and time), modal and nodal states
+  for axes in ('none', 'sample', 'sample+time'):
+    for kind in ('modal', 'nodal'):
+      cfg = dict(M=3, L=4, nlon=8, nlat=5) if kind == 'modal' or axes != 'sample' else dict(M=3, L=4, nlon=8, nlat=5, impl='fast')
+      tasks.append(dict(name=f'dataset-{grids.cfg_name(cfg)}-4-{kind}-{axes}', fn='task_dataset', kw=dict(cfg=cfg, layers=4, kind=kind, axes=axes)))
   return tasks
 
 
